@@ -45,7 +45,7 @@ def lossy_rechecks(ctx, s):
         # verification edges
         good = []
         for node in an.edge_cond:
-            for f in s.edge_facts(fn, node):
+            for f in s.edge_new_facts(fn, node):
                 if f[0] == "true" and contains_value(f[1], lambda x: x[0] == "call" and x[1].endswith("::event_matches")):
                     good.append(node)
                 if f[0] in ("true", "false") and f[1][0] == "call" and f[1][1].rsplit("::", 1)[-1] in ("eq", "ne"):
